@@ -23,27 +23,28 @@ import (
 
 // Op is one abstract operation of a history (JSON-serialisable).
 type Op struct {
-	Op    string  `json:"op"`
-	K     int     `json:"k,omitempty"`
-	Spec  *Spec   `json:"spec,omitempty"`
-	Specs []Spec  `json:"specs,omitempty"`
-	Wrong int     `json:"wrong,omitempty"` // 1-based position of an object of another type (0 = none)
-	CS    int     `json:"cs,omitempty"`
-	Sid   int     `json:"sid,omitempty"`
-	Old   int     `json:"old,omitempty"`
-	Field string  `json:"field,omitempty"`
-	Cmp   string  `json:"cmp,omitempty"`
-	Probe *Probe  `json:"probe,omitempty"`
-	N     uint64  `json:"n,omitempty"`
-	Cons  []DCons `json:"cons,omitempty"`
-	Ext   string  `json:"ext,omitempty"`
-	Gz    bool    `json:"gz,omitempty"`
-	Cache bool    `json:"cache,omitempty"`
-	AThr  int     `json:"athr,omitempty"` // async threshold (0 = async off)
-	AMs   int     `json:"ams,omitempty"`  // async timeout in ms
-	Lower bool    `json:"lower,omitempty"`
-	Def   bool    `json:"def,omitempty"` // create with sod.DefaultSchema-like value (no custom descriptors)
-	Ms    int     `json:"ms,omitempty"`
+	Op     string  `json:"op"`
+	K      int     `json:"k,omitempty"`
+	Spec   *Spec   `json:"spec,omitempty"`
+	Specs  []Spec  `json:"specs,omitempty"`
+	Wrong  int     `json:"wrong,omitempty"`  // 1-based position of an object of another type (0 = none)
+	WrongU bool    `json:"wrongu,omitempty"` // that object already has a uuid
+	CS     int     `json:"cs,omitempty"`
+	Sid    int     `json:"sid,omitempty"`
+	Old    int     `json:"old,omitempty"`
+	Field  string  `json:"field,omitempty"`
+	Cmp    string  `json:"cmp,omitempty"`
+	Probe  *Probe  `json:"probe,omitempty"`
+	N      uint64  `json:"n,omitempty"`
+	Cons   []DCons `json:"cons,omitempty"`
+	Ext    string  `json:"ext,omitempty"`
+	Gz     bool    `json:"gz,omitempty"`
+	Cache  bool    `json:"cache,omitempty"`
+	AThr   int     `json:"athr,omitempty"` // async threshold (0 = async off)
+	AMs    int     `json:"ams,omitempty"`  // async timeout in ms
+	Lower  bool    `json:"lower,omitempty"`
+	Def    bool    `json:"def,omitempty"` // create with sod.DefaultSchema-like value (no custom descriptors)
+	Ms     int     `json:"ms,omitempty"`
 }
 
 type DCons struct {
@@ -243,6 +244,20 @@ func liveToken() string {
 // Run executes one operation against the real package and writes its trace line.
 func (e *Exec) Run(op Op) {
 	e.stats[op.Op]++
+	// operations on a search that does not exist (removed while shrinking) are skipped
+	switch op.Op {
+	case "and", "or":
+		if e.srch[op.Old] == nil {
+			return
+		}
+	case "len", "limit", "reverse", "collect", "one", "sdel":
+		if e.srch[op.Sid] == nil {
+			return
+		}
+	}
+	if e.db == nil && op.Op != "open" {
+		return
+	}
 	switch op.Op {
 	case "open":
 		sod.LowercaseNames = op.Lower
@@ -309,7 +324,7 @@ func (e *Exec) Run(op Op) {
 		call := &strings.Builder{}
 		if op.Op == "many" {
 			if op.Wrong > 0 {
-				fmt.Fprintf(call, "many wrong=%d", op.Wrong-1)
+				fmt.Fprintf(call, "many wrong=%d,%d", op.Wrong-1, b2i(op.WrongU))
 			} else {
 				fmt.Fprintf(call, "many wrong=-")
 			}
@@ -327,7 +342,11 @@ func (e *Exec) Run(op Op) {
 				}
 			}
 			if op.Op == "many" && op.Wrong > 0 && i == op.Wrong-1 {
-				objs = append(objs, &T2{A: 1})
+				w := &T2{A: 1}
+				if op.WrongU {
+					w.Initialize(e.uuidOfK(9000 + i))
+				}
+				objs = append(objs, w)
 			} else {
 				objs = append(objs, t)
 			}
@@ -706,4 +725,4 @@ func (e *Exec) assignIndex(field string) string {
 	return "[" + strings.Join(toks, " ") + "] ok"
 }
 
-var caseAlphabet = []string{"a", "Z", "m", "é", "É", "ß", "ÿ", "ǅ", "ǆ", "Ǆ", "İ", "ı", "K", "ſ", "÷", "×", "à", "Þ", "0", " ", "aBc ÉéßǅİK"}
+var caseAlphabet = []string{"a", "Z", "m", "é", "É", "ß", "ÿ", "ǅ", "ǆ", "Ǆ", "İ", "ı", "\u212a", "ſ", "÷", "×", "à", "Þ", "0", " ", "aBc Ééßǅİ\u212a"}
